@@ -249,6 +249,8 @@ def main(tier):
         for oi, opts in enumerate(optsets):
             # thorough: asn1c runs under all 128 subsets for every module; the build + translator part runs for 16 of them
             # per module, rotating so that all subsets are built across the corpus
+            if tier == "quick" and m["origin"] == "special" and not m.get("all_optsets") and oi not in (mi % 2, 2 + (mi // 2) % 2):
+                continue        # quick: generated modules get the 4 option sets, hand-made valid ones 2 of them in rotation
             full = tier == "quick" or ((oi - 16 * mi) % 128) < 16
             jobs.append({"mod": m, "opts": opts, "oi": oi, "dir": job_dir(root, m, oi), "asn1c": asn1c, "skel": skel,
                          "only_asn1c": not full, "cleanup": True})
